@@ -15,6 +15,7 @@ import (
 	"strconv"
 	"strings"
 	"sync"
+	"time"
 
 	"gcverif/internal/hx"
 
@@ -25,11 +26,18 @@ import (
 )
 
 func walkFS(fs filesystem.Filespace, base string, out map[string]string) error {
+	if strings.Count(base, "/") > 64 {
+		return fmt.Errorf("destination tree deeper than 64")
+	}
 	list, err := fs.ReadDir(base)
 	if err != nil {
 		return err
 	}
 	for _, n := range list {
+		if n.Name() == "." || n.Name() == ".." {
+			out["d"+base+n.Name()] = "" // a node with such a name is itself a defect of the filespace; do not follow it
+			continue
+		}
 		p := base + n.Name()
 		if n.IsDir() {
 			out["d"+p] = ""
@@ -62,6 +70,21 @@ func (r *recI18) Set(values map[string]string) {
 func (r *recI18) SetDefault(values map[string]string) {}
 func (r *recI18) Translate(key string, values ...interface{}) (string, error) {
 	return "", nil
+}
+
+// guardTimed runs f under recover and a watchdog; hung = f did not return in time
+func guardTimed(f func()) (panicked bool, val interface{}, hung bool) {
+	done := make(chan struct{})
+	go func() {
+		defer close(done)
+		panicked, val = hx.Guard(f)
+	}()
+	select {
+	case <-done:
+		return panicked, val, false
+	case <-time.After(30 * time.Second):
+		return false, nil, true
+	}
 }
 
 func users(n int) {
@@ -109,7 +132,11 @@ func users(n int) {
 		sel, _ := selectedOf(&cfg, "./", tree)
 		var err error
 		res := "ok"
-		if p, v := hx.Guard(func() { err = fshelper.Copy(src, dst, filter) }); p {
+		if p, v, hung := guardTimed(func() { err = fshelper.Copy(src, dst, filter) }); hung {
+			fmt.Fprintf(w, "users copy it=%d sel=%d filter=%v verdict=FAIL(copy-never-returned)\n", it, len(sel), filter != nil)
+			fmt.Fprintf(w, "users-summary runs=%d fails=%d aborted-after-hang\n", 2*it+1, fails+1)
+			return
+		} else if p {
 			res = fmt.Sprintf("FAIL(panic:%v)", v)
 		} else if err != nil {
 			res = "FAIL(error:" + strings.ReplaceAll(err.Error(), " ", "_") + ")"
@@ -175,7 +202,11 @@ func users(n int) {
 		}
 		i18 := &recI18{sets: map[string]int{}}
 		res = "ok"
-		if p, v := hx.Guard(func() { err = fsi18loader.Load(fs, "./", i18, nil) }); p {
+		if p, v, hung := guardTimed(func() { err = fsi18loader.Load(fs, "./", i18, nil) }); hung {
+			fmt.Fprintf(w, "users i18 it=%d json=%d verdict=FAIL(load-never-returned)\n", it, len(want))
+			fmt.Fprintf(w, "users-summary runs=%d fails=%d aborted-after-hang\n", 2*it+2, fails+1)
+			return
+		} else if p {
 			res = fmt.Sprintf("FAIL(panic:%v)", v)
 		} else if err != nil {
 			res = "FAIL(error)"
